@@ -87,11 +87,16 @@ def devs (op : String) (how : String) (r0 : Recv) (rm : Recv) (args : List Val) 
   let a0 := argAt args 0
   let a1 := argAt args 1
   let posUnit : Option Nat :=        -- the code unit the model's stringAt finds, for charAt-like ops
-    match rm with
-    | .strObj s =>
-      let idx : Int := if op = "index" then stringToArrayIndex (toStr env a0) else (number env a0).i
-      if 0 ≤ idx ∧ idx < strLength s then some (strAt s idx.toNat) else none
-    | _ => none
+    if op = "index" then
+      match rm with
+      | .strObj s =>
+        let idx : Int := stringToArrayIndex (toStr env a0)
+        if 0 ≤ idx ∧ idx < strLength s then some (strAt s idx.toNat) else none
+      | _ => none
+    else if coercible rm then
+      let idx : Int := (number env a0).i
+      if 0 ≤ idx ∧ idx < strLength value then some (strAt value idx.toNat) else none
+    else none
   let charLike : Bool := op == "charAt" || op == "charCodeAt"
   let hasPos : Bool := decide (args.length ≥ 2) && isNumArg a1
   let n1 := number env a1
@@ -99,7 +104,6 @@ def devs (op : String) (how : String) (r0 : Recv) (rm : Recv) (args : List Val) 
   let d : List (String × Bool) := [
     ("call_undefined_this", how == "C" && r0 == .val .undef),
     ("lone_surrogate", loneSurrogate r0),
-    ("charAt_receiver_panic", charLike && coercible rm && !isStrObj rm && !(isObj rm && decide ((number env a0).i < 0))),
     ("charAt_fffd", (charLike || op == "index") && posUnit == some 0xFFFD),
     ("charAt_surrogate", (op == "charAt" || op == "index") && optSurr posUnit),
     ("index_noncanonical", op == "index" && decide (stringToArrayIndex (toStr env a0) ≥ 0)
